@@ -368,3 +368,18 @@ def rendered_values(b, op):
             out.add(value_root(b, op_local(tt["args"][0])))
     out.discard(None)
     return out
+
+
+def is_field_value(b, op, field):
+    """the operand IS the value of a struct field named `field` (a chain of plain copies ending at a place whose last
+    projection is that field), not merely derived from it"""
+    pl = op_place(op)
+    for _ in range(8):
+        if isinstance(pl, int):
+            d = b.single_def(pl)
+            if d and d[2] == "assign" and d[3]["k"] in ("use", "cast") and op_place(d[3]["a"]) is not None:
+                pl = op_place(d[3]["a"])
+                continue
+        break
+    fs = proj_fields(pl) if isinstance(pl, dict) else []
+    return bool(fs and fs[-1][2] == field)
